@@ -212,7 +212,9 @@ def apply_resultpath(input, result, path="$"):
             "The value of \"ResultPath\" MUST NOT begin with \"$$\""
         )
 
-    matches = re.findall(r"[^$.[\]]+", path)  # Regex to split the reference paths
+    # Regex to split the reference paths. The apostrophes of bracket-quoted
+    # notation e.g. $['a'] delimit the name and are not part of it.
+    matches = re.findall(r"[^$.[\]']+", path)
     return update_path(input, matches, result)
 
 def evaluate_payload_template(input, context, template):
